@@ -168,7 +168,7 @@ func runC01(e *env) {
 			if tgt == "gounions" {
 				seenID := map[string]bool{}
 				for _, d := range ids.declared {
-					if seenID[d] && strings.HasSuffix(d, "Kind") {
+					if seenID[d] && strings.HasSuffix(d, "Kind") && inputHasKindCollision(o) {
 						caseClass = "gounions:kind-constant-redeclared"
 					}
 					seenID[d] = true
@@ -199,9 +199,13 @@ func runC01(e *env) {
 		e.writeCases2(fmt.Sprintf("cases_C01_%d", len(e.m.CaseFiles)), factsHeader+"From GM Require Import Model.Enums Model.GoScope Corr.Check_C01.\n", "mismatches", "prop_failures", cases, inputs)
 	}
 	shadow := map[string]bool{}
+	kindCollision := map[string]bool{}
 	for i, o := range obs {
 		if shadowClass(o) != "" {
 			shadow[specs[i].Name] = true
+		}
+		if inputHasKindCollision(o) {
+			kindCollision[specs[i].Name] = true
 		}
 	}
 
@@ -227,6 +231,9 @@ func runC01(e *env) {
 		}
 		if len(results[i]) > 0 {
 			cls := classifyCompileError(j.tgt, results[i][0])
+			if strings.HasSuffix(cls, ":kind-constant-redeclared") && !kindCollision[j.spec.Name] {
+				cls = j.tgt + ":other" // the recorded finding needs two unions sharing their first two letters and a member
+			}
 			if j.spec.Class != "" && j.tgt == "gounions" {
 				cls = j.tgt + ":" + j.spec.Class
 			}
@@ -270,6 +277,7 @@ func corpusGoGen() []*modSpec {
 		mk("go-id-upper-with-foreign-keys", "package models\n\nimport \"database/sql\"\n\ntype IdAuthor int64\ntype IdBook int64\ntype IdShelf int64\n\ntype Author struct {\n\tID IdAuthor\n\tName string\n}\n\ntype Shelf struct {\n\tId IdShelf\n\tLabel string\n}\n\ntype Book struct {\n\tID IdBook\n\tIdAuthor IdAuthor\n\tIdShelf IdShelf `gomacro-sql-on-delete:\"CASCADE\"`\n\tCoAuthor sql.NullInt64 `gomacro-sql-foreign:\"Author\"`\n\tTitle string\n}\n"),
 		mk("go-imported-package-named-like-own", "package models\n\nimport shared \"example.com/org/models/shared/models\"\n\ntype IdOrder int64\n\ntype Order struct {\n\tId IdOrder\n\tStatus shared.Status\n\tCurrency shared.Currency\n\tHistory shared.Statuses\n}\n",
 			modFile{"shared/models/models.go", "package models\n\ntype Status int\n\nconst (\n\tPending Status = iota + 1\n\tPaid\n\tShipped\n)\n\ntype Statuses []Status\n\ntype Currency string\n\nconst (\n\tEUR Currency = \"EUR\"\n\tUSD Currency = \"USD\"\n)\n"}),
+		mk("go-unions-sharing-their-first-letter", "package models\n\ntype Shape interface{ isShape() }\ntype Style interface{ isStyle() }\ntype Circle struct{ R int }\ntype Square struct{ S int }\ntype Bold struct{ W int }\n\nfunc (Circle) isShape() {}\nfunc (Square) isShape() {}\nfunc (Circle) isStyle() {}\nfunc (Bold) isStyle() {}\n\ntype Drawing struct {\n\tShape Shape\n\tStyle Style\n}\n"),
 		mk("go-id-upper", "package models\n\ntype IdT int64\n\ntype T struct {\n\tID IdT\n\tName string\n}\n\ntype Link struct {\n\tIdT IdT\n\tV int\n}\n"),
 		mk("go-tables-basic", "package models\n\ntype IdA int64\ntype IdB int64\n\n// gomacro:SQL ADD UNIQUE(Name)\ntype A struct {\n\tId IdA\n\tName string\n\tN int\n}\n\ntype B struct {\n\tId IdB\n\tIdA IdA `gomacro-sql-on-delete:\"CASCADE\"`\n\tOpt OptA\n\tTags []string\n\tFlags [3]bool\n}\n\ntype OptA struct {\n\tValid bool\n\tId IdA\n}\n\n// gomacro:SQL ADD UNIQUE(IdA, IdB)\ntype LinkAB struct {\n\tIdA IdA\n\tIdB IdB\n}\n"),
 		mk("go-unions-shared-prefix", "package models\n\ntype Shape1 interface{ is1() }\ntype Shape2 interface{ is2() }\n\ntype A struct{ X int }\n\nfunc (A) is1() {}\nfunc (A) is2() {}\n\ntype S struct {\n\tV1 Shape1\n\tV2 Shape2\n}\n"),
@@ -366,4 +374,30 @@ func readGoFile(text string) *goIdents {
 		}
 	}
 	return out
+}
+
+// inputHasKindCollision: the input shows the shape of the recorded finding gounions:kind-constant-redeclared - two unions
+// of one package whose names share their first two letters and that have a common member.
+func inputHasKindCollision(o *obsResult) bool {
+	var unions []namedObs
+	for _, n := range o.Nameds {
+		if n.Kind == "KdUnion" && len(n.Local) >= 2 {
+			unions = append(unions, n)
+		}
+	}
+	for i, a := range unions {
+		for _, b := range unions[i+1:] {
+			if a.ID == b.ID || a.PkgPath != b.PkgPath || a.Local[:2] != b.Local[:2] {
+				continue
+			}
+			for _, x := range a.Members {
+				for _, y := range b.Members {
+					if x == y {
+						return true
+					}
+				}
+			}
+		}
+	}
+	return false
 }
